@@ -2,6 +2,8 @@ mod k1;
 mod k2;
 mod k3;
 mod planners;
+mod report;
+mod s04;
 mod util;
 
 fn main() {
@@ -17,6 +19,7 @@ fn main() {
         "sqrtlim" => k1::sqrtlim(rest),
         "k2" => k2::run(rest),
         "k3" => k3::run(rest),
+        "s04" => s04::run(rest),
         other => {
             eprintln!("unknown subcommand {}", other);
             std::process::exit(2);
